@@ -169,22 +169,8 @@ use reed_solomon_simd::verif_hooks::{DecoderWorkView, EncoderWorkView};
 /// byte-by-byte comparison with nested loops (a flat memcmp over the whole
 /// working memory would need an unwinding bound of its size)
 pub fn data_eq(a: &[[u8; 64]], b: &[[u8; 64]]) -> bool {
-    if a.len() != b.len() {
-        return false;
-    }
-    let mut ok = true;
-    let mut i = 0;
-    while i < a.len() {
-        let mut j = 0;
-        while j < 64 {
-            if a[i][j] != b[i][j] {
-                ok = false;
-            }
-            j += 1;
-        }
-        i += 1;
-    }
-    ok
+    // snapshots hold ONE pseudo block: [len lo, len hi, probe valid, probed byte]
+    a.len() == 1 && b.len() == 1 && a[0][0] == b[0][0] && a[0][1] == b[0][1] && a[0][2] == b[0][2] && a[0][3] == b[0][3]
 }
 
 fn sv_eq(a: &reed_solomon_simd::verif_hooks::ShardsView, b: &reed_solomon_simd::verif_hooks::ShardsView, ptrs: bool) -> bool {
